@@ -47,6 +47,9 @@ type Case struct {
 	Seed        uint64            `json:"seed"` // rendering choices; 0 = canonical rendering
 	Junk        int               `json:"junk"` // upper bound for the number of bytes before %PDF-
 	TrapAvoided bool              `json:"trap_avoided,omitempty"`
+	// LooseEOL allows the serialiser to leave out the (recommended, not
+	// required) EOL before endstream of streams with a correct /Length.
+	LooseEOL bool `json:"loose_eol,omitempty"`
 
 	obs observed
 }
@@ -123,7 +126,7 @@ func offByOneOpen() bool {
 // rendering and expectation
 
 func render(c *Case) (*serial.Result, error) {
-	opt := serial.Options{Version: c.Version, MaxJunk: c.Junk}
+	opt := serial.Options{Version: c.Version, MaxJunk: c.Junk, LooseEndstream: c.LooseEOL}
 	if c.Seed != 0 {
 		opt.Choose = vt.NewRand(c.Seed)
 	}
@@ -519,6 +522,9 @@ func classify(c *Case) (bool, []string) {
 	}
 	if !c.obs.rendered {
 		return false, []string{"not-rendered"}
+	}
+	if c.LooseEOL {
+		add("endstream-without-EOL-allowed", false)
 	}
 	if c.obs.outOfDomain {
 		return false, []string{"out-of-domain"}
